@@ -4,6 +4,8 @@ CHECKS = {
     "C02": {"kind": "explore", "scenarios": ["conc"],
             "assumptions": ["gorilla/websocket, net/http, encoding/json run natively between library gates and are treated as atomic",
                             "go1.26.8 testing/synctest bubble semantics; in-memory network vnet instead of TCP"]},
+    "C03": {"kind": "explore", "scenarios": ["fault"], "tags": ["C03"], "budget": {"quick": 150, "thorough": 1500}},
+    "C04": {"kind": "explore", "scenarios": ["fault"], "tags": ["C04"], "budget": {"quick": 150, "thorough": 1500}},
     "C19": {"kind": "seqx", "pkg": "c19", "test": "TestC19",
             "assumptions": ["the checks compare permissions only for equality, so the 3-permission universe is representative"]},
 }
